@@ -52,7 +52,7 @@ struct L05 : Listener {
             Shape sh = shapeOf(in.o());
             if (sh.plabels.size() != sh.nP || sh.alabels.size() != sh.nC) named = false;
         }
-        std::string m = checkAgreement(s, named, &gaps);
+        std::string m = checkAgreement(s, named, &gaps, (op.code == "load" || op.code == "reload") && !o.threw);   // right after a load every frame came from the file
         if (!m.empty()) {
             r.fail("after op " + std::to_string(i) + " (" + op.code + (o.threw ? ", refused with " + o.cls : "") + "): " + m);
             if (extendOnEmpty) r.knownFinding = "KF-D20";
@@ -72,7 +72,7 @@ struct L05 : Listener {
 
 CaseResult runC05(const Case &c, RunCtx &ctx) {
     CaseResult r;
-    Interp in(ctx);
+    Interp in(ctx, "C05");
     L05 L(r); in.L = &L;
     in.run(c);
     r.counters["invariant_checks"] = static_cast<long long>(L.checks);
